@@ -260,6 +260,10 @@ class SInt:
         if isinstance(o, float) and o == int(o):
             o = int(o)
         if isinstance(o, int) and not isinstance(o, bool) and o > 0:
+            from . import fp
+
+            if fp.IEEE:
+                return fp.int_div_const(self.z, o)
             r = SRatio(self.z, o)
             if self.tag is not None and self.tag[0] == "micro_of" and o == 1000:
                 r.tag = ("microdiv_of", self.tag[1])
@@ -639,6 +643,10 @@ class STimedelta(timedelta):
         return 0x5EED
 
     def total_seconds(self):
+        from . import fp
+
+        if fp.IEEE:
+            return fp.int_div_const(self.us, 1000000)
         return SRatio(self.us, 1000000, tag=("total_seconds_of", self))
 
     def __deepcopy__(self, memo):
@@ -711,11 +719,12 @@ class SDatetime(datetime):
     """Aware datetime: us = microseconds since the epoch (instant), off = UTC
     offset in minutes.  ``aligned``: us is a multiple of 1000 by construction."""
 
-    def __new__(cls, us, off=0, aligned=False):
+    def __new__(cls, us, off=0, aligned=False, parts=None):
         o = datetime.__new__(cls, 2000, 1, 1, tzinfo=timezone.utc)
         o.us = us
         o.off = off
         o.aligned = aligned
+        o.parts = parts  # optional (concrete epoch second, microsecond term): enables character-level isoformat()
         return o
 
     # arithmetic ---------------------------------------------------------
@@ -797,7 +806,8 @@ class SDatetime(datetime):
                 if self.aligned:
                     r = self
                 else:
-                    r = SDatetime(self.us - self.us % 1000, self.off, True)
+                    pt = (self.parts[0], self.parts[1] - self.parts[1] % 1000) if self.parts else None
+                    r = SDatetime(self.us - self.us % 1000, self.off, True, pt)
             else:
                 m = zint(microsecond)
                 if isinstance(m, int) and not (0 <= m <= 999999):
@@ -807,7 +817,8 @@ class SDatetime(datetime):
                     if not _branch(z3.And(m >= 0, m <= 999999)):
                         raise ValueError("microsecond must be in 0..999999")
                 al = isinstance(m, int) and m % 1000 == 0
-                r = SDatetime(self.us - self.us % 1000000 + m, self.off, al)
+                pt = (self.parts[0], m) if self.parts else None
+                r = SDatetime(self.us - self.us % 1000000 + m, self.off, al, pt)
         if tzinfo is not True:
             if tzinfo is None:
                 raise Unsupported("replace(tzinfo=None)")
@@ -818,14 +829,22 @@ class SDatetime(datetime):
 
     def astimezone(self, tz=None):
         noff = tz_off(tz)
-        return SDatetime(self.us, noff, self.aligned)
+        return SDatetime(self.us, noff, self.aligned, self.parts)
 
     def timestamp(self):
+        from . import fp
+
+        if fp.IEEE:
+            return fp.int_div_const(self.us, 1000000)
         return SRatio(self.us, 1000000, tag=("timestamp_of", self))
 
     def isoformat(self, sep="T", timespec="auto"):
-        from .sstr import SIsoStr
+        from .sstr import SIsoStr, iso_render
 
+        if timespec != "auto":
+            raise Unsupported("isoformat(timespec)")
+        if self.parts is not None and isinstance(self.off, int):
+            return iso_render(self, sep)
         return SIsoStr(self, sep)
 
     def __deepcopy__(self, memo):
@@ -877,6 +896,10 @@ def sym_int(x=0, *a):
         return r
     if isinstance(x, SInt):
         return x
+    from . import fp
+
+    if isinstance(x, fp.SFloat):
+        return mkint(x.trunc())
     from .sstr import SStr, sstr_to_int
 
     if isinstance(x, SStr):
@@ -884,20 +907,41 @@ def sym_int(x=0, *a):
     return int(x, *a)
 
 
-def sym_timedelta(*a, **kw):
+def _sym_timedelta(*a, **kw):
     """stands for ``timedelta`` rebound in a module under test"""
+    from . import fp
+
     vals = list(a) + list(kw.values())
-    if not any(isinstance(v, (SInt, SRatio)) for v in vals):
+    if not any(isinstance(v, (SInt, SRatio, fp.SFloat)) for v in vals):
         return timedelta(*a, **kw)
     if a or set(kw) - {"seconds", "microseconds", "milliseconds", "hours", "minutes", "days"}:
         raise Unsupported("timedelta(%r, %r)" % (a, kw))
+    if any(isinstance(v, fp.SFloat) for v in vals):
+        if set(kw) != {"seconds"}:
+            raise Unsupported("timedelta with float in %r" % (sorted(kw),))
+        return mktd(fp.seconds_to_us(kw["seconds"]), False)
     mult = dict(seconds=10**6, microseconds=1, milliseconds=1000, hours=3600 * 10**6, minutes=60 * 10**6, days=86400 * 10**6)
     tot = SRatio(0, 1)
     for k, v in kw.items():
         tot = tot + SRatio.of(v) * mult[k]
     us = tot.round_half_even()
-    al = False
-    return mktd(zint(us), al)
+    return mktd(zint(us), False)
+
+
+class _SymTimedeltaClass:
+    """callable + isinstance-able stand-in for the class ``timedelta``"""
+
+    def __call__(self, *a, **kw):
+        return _sym_timedelta(*a, **kw)
+
+    def __instancecheck__(self, x):
+        return isinstance(x, timedelta)
+
+    def __getattr__(self, name):
+        return getattr(timedelta, name)
+
+
+sym_timedelta = _SymTimedeltaClass()
 
 
 class SymDatetimeClass:
@@ -914,6 +958,12 @@ class SymDatetimeClass:
         return isinstance(x, datetime)
 
     def fromtimestamp(self, x, tz=None):
+        from . import fp
+
+        if isinstance(x, fp.SFloat):
+            if tz is None:
+                raise Unsupported("fromtimestamp without tz")
+            return mkdt(fp.seconds_to_us(x), tz_off(tz), False)
         if isinstance(x, (SRatio, SInt)):
             if tz is None:
                 raise Unsupported("fromtimestamp without tz")
